@@ -185,6 +185,9 @@ func (s *sim) Yield(site uint32) {
 		if s.countSites && siteEpoch[site] != soloEpoch {
 			siteEpoch[site] = soloEpoch
 			siteOpCount[site]++
+			if soloOpIdx >= 0 && len(siteOpList[site]) < siteListCap {
+				siteOpList[site] = append(siteOpList[site], soloOpIdx)
+			}
 		}
 		if s.trace != nil {
 			*s.trace = append(*s.trace, site)
